@@ -1981,3 +1981,7 @@ mod test {
         assert!(!cache.contains(&1));
     }
 }
+
+#[cfg(feature = "verif-hooks")]
+#[path = "/verif/kani/hooks_adaptive.rs"]
+mod verif_hooks;
